@@ -19,7 +19,10 @@ stated round-trip hypotheses (`SentWF`), in particular for the native bodies of 
 * `refuse_wrong_magic`, `refuse_too_large` — a frame whose magic is wrong or whose announced length
   exceeds `4 × max_msg_size(type)` (`4 × default` for unknown types) is refused with exactly the 11
   header bytes read and 11 bytes requested from the allocator, under every fragmentation;
-* `headers_empty_refused` — **the property fails for an empty `Headers` list**: the well-formed frame
+* `headers_zero_count_refused`, `headers_remaining_no_wrap` — a frame announcing 0 items but carrying some
+  is refused with `BadMessage` before any item is decoded; `remaining` of a delivered batch never wraps
+  (the code was repaired in /repo 8eb131841; before, `items_left` wrapped and batches were delivered);
+* `headers_empty_refused` — **the property fails for an empty `Headers` list** (known finding): the well-formed frame
   `Headers { headers: vec![] }` is refused with `BadMessage` (so `framing_faithful` is stated for
   non-empty lists); `headers_never_read_beyond` — while streaming a `Headers` body the codec never
   pulls bytes beyond the announced `msg_len`, whatever the count says;
@@ -191,6 +194,49 @@ theorem headers_empty_refused (env : Env B H) (rest : Bytes) :
   unfold GV.Codec.read
   rw [READ_FUEL_eq, hs, e1, e2, e3]
 
+/-- **a `Headers` frame announcing 0 items but carrying some is refused before anything is decoded or
+delivered** (repair 8eb131841: `if *bytes_left == 0 || *items_left == 0`): from the idle codec, the
+frame header, the count and at most one header's worth of the body are pulled, then `BadMessage` with the
+state reset — no batch with a wrapped `remaining` reaches the handler; under every fragmentation -/
+theorem headers_zero_count_refused (env : Env B H) (L : Nat) (hL : 2 ≤ L) (hmax : L ≤ maxLen env.net T_Headers)
+    (h64 : L < 2^64) (rest : Bytes) (hpresent : min (L - 2) env.hdrMax ≤ rest.length) (frags : List Bytes)
+    (hfr : frags.flatten = encHeader env.net T_Headers L ++ (writeU16 0 ++ rest)) :
+    (read env fragOps (idle : Codec H) frags).res = .err .badMessage ∧
+    (read env fragOps (idle : Codec H) frags).bytesRead = 13 + min (L - 2) env.hdrMax ∧
+    (read env fragOps (idle : Codec H) frags).codec.state = .none := by
+  obtain ⟨a1, a2, _, a4, _⟩ := read_sim env sim_frag_flat (idle : Codec H) frags _ hfr
+  rw [a1, a2, a4]
+  have hdec : decHeader env.net (encHeader env.net T_Headers L) = .ok (.known T_Headers L) [] 0 := by
+    have := decHeader_encHeader env.net T_Headers L h64 []
+    rw [List.append_nil] at this
+    rw [this, if_neg (by omega), if_pos isKnown_headers]
+  have e1 := readLoop_header_ok env (34 + 1) (encHeader env.net T_Headers L) (writeU16 0 ++ rest)
+    (encHeader_length _ _ _) 0 0 _ _ _ hdec
+  have e2 := readLoop_count env 34 L 0 rest hL (by decide) (0 + 11) (0 + 11 + 0)
+  have hnl : nextLen env (State.blockHeaders (L - 2) 0 ([] : List H)) = min (L - 2) env.hdrMax := rfl
+  have hsplit : rest = rest.take (min (L - 2) env.hdrMax) ++ rest.drop (min (L - 2) env.hdrMax) :=
+    (List.take_append_drop _ _).symm
+  have hf := fill_flat (H := H) (.blockHeaders (L - 2) 0 []) [] (rest.take (min (L - 2) env.hdrMax))
+    (rest.drop (min (L - 2) env.hdrMax)) (min (L - 2) env.hdrMax)
+    (by rw [List.length_take]; simp; omega)
+  rw [← hsplit, List.nil_append] at hf
+  have hstep := stepState_zero_items env (L - 2) ([] : List H) (rest.take (min (L - 2) env.hdrMax))
+    (min (L - 2) env.hdrMax)
+  have e3 := readLoop_inl env flatOps 33 ({ buffer := [], state := .blockHeaders (L - 2) 0 [] } : Codec H) _ _ _ _
+    (0 + 11 + 2) (0 + 11 + 0 + 2 + min HEADER_BATCH_SIZE 0 * env.hdrMem) _ _ (by rw [hnl]; exact hf)
+    (by rw [hnl]; exact hstep)
+  unfold GV.Codec.read
+  rw [READ_FUEL_eq, e1, e2, e3, hnl]
+  exact ⟨rfl, by simp, rfl⟩
+
+/-- a batch that *is* delivered carries `remaining = items_left − 1` with `items_left ≥ 1`: the
+`*items_left -= 1` of the code can no longer wrap -/
+theorem headers_remaining_no_wrap (env : Env B H) (bl il : Nat) (hs : List H) (buffer : Bytes) (nl : Nat)
+    (hil : il < 2^64) (hs' : List H) (rem : Nat) (c2 : Codec H) (a : Nat)
+    (h : stepState env ({ buffer := buffer, state := .blockHeaders bl il hs } : Codec H) nl =
+      .inl (.msg (.headers hs' rem), c2, a)) : rem + 1 = il :=
+  stepState_headers_remaining env bl il hs buffer nl hil hs' rem c2 a h
+
 /-- while a `Headers` body is being streamed, one loop iteration pulls at most the bytes of the
 message that are not yet buffered: `to_read ≤ bytes_left − buffered`, whatever `items_left` says -/
 theorem headers_never_read_beyond (env : Env B H) (bl il : Nat) (hs : List H) (buffer : Bytes)
@@ -268,6 +314,18 @@ theorem codec_read_no_hang (env : Env B H) (c : Codec H) (hw : WFc c) (frags : L
   apply readLoop_no_hang env fragOps READ_FUEL c frags 0 0 hw
   · unfold rank; rw [READ_FUEL_eq]; cases c.state <;> simp <;> omega
   · rw [READ_FUEL_eq]; omega
+
+/-- **allocation of one `Codec::read`** ≤ bytes pulled from the socket + 36 header-batch vectors
+(`Vec::with_capacity(min(32, items_left))`), plus — only when the stream ended during a fill — the
+`reserve(to_read)` of the fill that failed, where `to_read ≤ next_len ≤ 4·max_msg_size(type)` by the
+check on the frame header (`refuse_too_large`) -/
+theorem codec_read_alloc_bound (env : Env B H) (c : Codec H) (frags : List Bytes) :
+    (read env fragOps c frags).alloc ≤ (read env fragOps c frags).bytesRead + 36 * (32 * env.hdrMem) +
+      (if isConn (read env fragOps c frags).res then
+        nextLen env (read env fragOps c frags).codec.state - (read env fragOps c frags).codec.buffer.length else 0) := by
+  have := readLoop_alloc_bound env fragOps READ_FUEL c frags 0 0 _ rfl
+  rw [READ_FUEL_eq] at this
+  simpa [GV.Codec.read, READ_FUEL_eq] using this
 
 /-- the states `Codec::new` and `expect_attachment` produce satisfy the invariant -/
 example : WFc (Codec.new : Codec Nat) := trivial
